@@ -133,6 +133,9 @@ pub struct Interpreter<'a, R: RealNumberInternalTrait> {
     pub env: Rc<Environment<R>>,
     lib_loader: LibraryLoader<'a, R>,
     imported_library: HashSet<LibraryName>,
+    // libraries already instantiated for this program: every import of a library refers to
+    // the same instance
+    instantiated_library: HashMap<LibraryName, Library<R>>,
     import_end: bool, // indicate program's import declaration part end
     pub program_directory: Option<PathBuf>,
     _marker: PhantomData<R>,
@@ -150,6 +153,7 @@ impl<'a, R: RealNumberInternalTrait> Interpreter<'a, R> {
             env: environment,
             lib_loader: LibraryLoader::default(),
             imported_library: HashSet::new(),
+            instantiated_library: HashMap::new(),
             import_end: false,
             program_directory: None,
             _marker: PhantomData,
@@ -178,6 +182,9 @@ impl<'a, R: RealNumberInternalTrait> Interpreter<'a, R> {
             .extend(lib_loader.lib_factories.into_iter());
     }
     pub fn register_library_factory(&mut self, library_factory: LibraryFactory<'a, R>) {
+        // a new factory for a name replaces what was instantiated from the old one
+        self.instantiated_library
+            .remove(library_factory.get_library_name());
         self.lib_loader.register_library_factory(library_factory);
     }
 
@@ -523,6 +530,9 @@ impl<'a, R: RealNumberInternalTrait> Interpreter<'a, R> {
         }
     }
     pub fn get_library(&mut self, name: Located<LibraryName>) -> Result<Library<R>> {
+        if let Some(library) = self.instantiated_library.get(&name) {
+            return Ok(library.clone());
+        }
         let factory = match self.lib_loader.lib_factories.get(&name) {
             Some(factory) => factory,
             None => {
@@ -534,7 +544,10 @@ impl<'a, R: RealNumberInternalTrait> Interpreter<'a, R> {
             }
         }
         .clone();
-        self.new_library(&factory)
+        let library = self.new_library(&factory)?;
+        self.instantiated_library
+            .insert(name.deref().clone(), library.clone());
+        Ok(library)
     }
     pub fn eval_import_set(&mut self, import: &ImportSet) -> Result<Vec<(String, Value<R>)>> {
         match &import.data {
